@@ -55,6 +55,9 @@ ASSUMPTIONS = [
     "the fingerprint is a reflective walk of the loaded definition (class names, public attributes, lists and dicts in "
     "order, floats by repr, callables probed at 0,1,2) excluding ns / xtce_ns_prefix / xtce_schema_uri; it is only ever "
     "compared between two results of the same code",
+    "the namespace bookkeeping (ns, xtce_ns_prefix, xtce_schema_uri) and the serialisation legitimately differ between "
+    "renderings, so they are compared with a second baseline: the SAME bytes loaded as the first and only load of a "
+    "pristine child (the whole history is drawn before anything is loaded, so all baselines exist beforehand)",
     "failing loads are history, not judged (whether they raise is C17's business)",
     "sequential histories only (no threads)",
 ]
@@ -71,11 +74,12 @@ def vacuity(agg):
 EXPECTED_PROBES = ("chain_prefix_default_none", "judged_after_malformed", "judged_after_torn", "judged_after_wrong_prefix",
                    "judged_after_dangling", "judged_after_unsupported", "judged_after_io_error", "non_ascii_prefix",
                    "comment_in_list", "context_calibrator_doc", "via_path", "via_str", "via_fileobj", "via_load_xml",
-                   "use_earlier_after_other_ns")
+                   "use_earlier_after_other_ns", "path_reused_for_other_content")
 
 _packets = factory.import_library()
 import space_packet_parser  # noqa: E402
 from space_packet_parser.xtce.definitions import XtcePacketDefinition  # noqa: E402
+import lxml.etree as _ET  # noqa: E402
 
 BAD_KINDS = ("malformed", "torn", "wrong_prefix", "dangling", "unsupported", "io_error")
 
@@ -154,6 +158,41 @@ def mutate_bad(kind, doc, rd, ch, w):
     return xml, prefix, fail_at
 
 
+def full_view(defn):
+    """Everything about a definition incl. the namespace bookkeeping and how it serialises."""
+    try:
+        ser = zlib.crc32(_ET.tostring(defn.to_xml_tree()))
+    except Exception as e:      # noqa: BLE001
+        ser = ("RAISES", type(e).__name__)
+    return (xf.fingerprint(defn, top=False), ser)
+
+
+def same_rendering_first(xml_bytes, prefix):
+    """Baseline for the namespace bookkeeping and the serialisation: the SAME bytes loaded as the first and only
+    load of a pristine process."""
+    r, w = os.pipe()
+    pid = os.fork()
+    if pid == 0:
+        os.close(r)
+        try:
+            with warnings.catch_warnings():
+                warnings.simplefilter("ignore")
+                d = XtcePacketDefinition.from_xtce(io.BytesIO(xml_bytes), xtce_ns_prefix=prefix)
+            res = ("ok", full_view(d))
+        except BaseException as e:      # noqa: BLE001
+            res = ("error", f"{type(e).__name__}: {e}")
+        try:
+            with os.fdopen(w, "wb") as f:
+                pickle.dump(res, f)
+        finally:
+            os._exit(0)
+    os.close(w)
+    with os.fdopen(r, "rb") as f:
+        data = f.read()
+    os.waitpid(pid, 0)
+    return pickle.loads(data)
+
+
 def run(ch, render=False):
     out = Outcome()
     w = World(ch, max_steps=10_000)
@@ -166,7 +205,40 @@ def run(ch, render=False):
             w.probe("context_calibrator_doc")
     enabled = [k for k in BAD_KINDS if ch.chance(1, 2, "en_" + k)]
 
-    # ---- baselines: each in a child forked from the pristine state (nothing loaded yet) ----------
+    # ---- phase A: draw the whole history (so that every baseline can be computed before anything is loaded) ----
+    n_ops = 2 + ch.draw(11, "n_ops")
+    plan = []
+    n_loaded = 0
+    for opi in range(n_ops):
+        if opi == n_ops - 1:
+            op = "load_ok"
+        else:
+            pairs = [(6, "load_ok")] + [(1, "bad_" + k) for k in enabled]
+            if n_loaded:
+                pairs += [(2, "use_earlier"), (1, "serialize_earlier")]
+            pairs += [(1, "construct_empty")]
+            op = ch.weighted(pairs, "op")
+        e = dict(op=op)
+        if op == "load_ok" or op.startswith("bad_"):
+            di = ch.draw(n_docs, "doc")
+            rd = xf.draw_rendering(ch)
+            if op == "load_ok":
+                xml, prefix, fail_at = xf.render(docs[di], rd), xf.ns_prefix_arg(rd), None
+                vias = ["fileobj", "str", "path"] + (["load_xml"] if (rd["ns"] == "prefix" and rd["prefix"] == "xtce") else [])
+                n_loaded += 1
+            else:
+                xml, prefix, fail_at = mutate_bad(op[4:], docs[di], rd, ch, w)
+                vias = ["fileobj", "str", "path"] if fail_at is None else ["fileobj"]
+            via = ch.pick(vias, "via")
+            e.update(di=di, rd=rd, xml=xml, prefix=prefix, fail_at=fail_at, via=via,
+                     bufsize=ch.pick((8192, 512, 64), "bufsize") if via == "fileobj" else None,
+                     # few path names, re-used: a later document is often written to a path an earlier one was loaded from
+                     fname=ch.pick(("doc.xml", "other.xml", "doc.xml", "third.xml"), "fname") if via != "fileobj" else None)
+        elif op in ("use_earlier", "serialize_earlier"):
+            e.update(which=ch.draw(n_loaded, "which"))
+        plan.append(e)
+
+    # ---- phase B: baselines, each in a child forked from the pristine state (nothing loaded yet) ----------
     base = []
     for i in range(n_docs):
         res = baseline_in_pristine_child(canon[i], pkts[i])
@@ -180,18 +252,25 @@ def run(ch, render=False):
         if render:
             out.sample = {"note": "canonical rendering of a drawn document does not load", "detail": [b[1] for b in base if b[0] != "ok"]}
         return out
+    same_first = {}
+    for e in plan:
+        if e["op"] == "load_ok":
+            key = (e["di"], zlib.crc32(e["xml"]), e["prefix"])
+            if key not in same_first:
+                same_first[key] = same_rendering_first(e["xml"], e["prefix"])
+            e["key"] = key
 
+    # ---- phase C: execute the history -----------------------------------------------------------------------
     tmpdir = tempfile.mkdtemp(prefix="verif_c16_")
-    n_ops = 2 + ch.draw(11, "n_ops")
     trace = []
-    loaded = []               # (doc index, definition, ns convention) of successful loads so far
+    loaded = []               # (doc index, definition, ns convention, key) of successful loads so far
     conventions = []
     prev_bad = None
     judged_noncanon = False
     bad_before_judged = False
-    fileno = [0]
+    used_paths = {}
 
-    def judge(i, defn, what, rd_desc):
+    def judge(i, defn, what, rd_desc, key):
         fp = xf.fingerprint(defn)
         if fp != base[i][1]:
             # locate the first difference for the message
@@ -208,38 +287,41 @@ def run(ch, render=False):
             out.fail("decode_differs", f"{what}: probe packets decode differently from the load-it-first baseline "
                                        f"({rd_desc})", "decode_differs")
             return False
+        sf = same_first[key]
+        if sf[0] == "ok":
+            fv = full_view(defn)
+            if fv[0] != sf[1][0]:
+                a, b = repr(fv[0]), repr(sf[1][0])
+                j = 0
+                while j < min(len(a), len(b)) and a[j] == b[j]:
+                    j += 1
+                out.fail("namespace_bookkeeping_differs",
+                         f"{what}: the definition (incl. ns / xtce_ns_prefix / xtce_schema_uri) differs from loading the same "
+                         f"bytes first near ...{a[max(0, j - 60):j + 60]!r} vs ...{b[max(0, j - 60):j + 60]!r} ({rd_desc})",
+                         "namespace_bookkeeping_differs")
+                return False
+            if fv[1] != sf[1][1]:
+                out.fail("serialisation_differs", f"{what}: to_xml_tree() serialises differently from the same bytes loaded "
+                                                  f"first ({rd_desc})", "serialisation_differs")
+                return False
         return True
 
     try:
         with warnings.catch_warnings():
             warnings.simplefilter("ignore")
-            for opi in range(n_ops):
-                last = opi == n_ops - 1
-                if last:
-                    op = "load_ok"
-                else:
-                    pairs = [(6, "load_ok")] + [(1, "bad_" + k) for k in enabled]
-                    if loaded:
-                        pairs += [(2, "use_earlier"), (1, "serialize_earlier")]
-                    pairs += [(1, "construct_empty")]
-                    op = ch.weighted(pairs, "op")
+            for opi, e in enumerate(plan):
+                op = e["op"]
                 if op == "load_ok" or op.startswith("bad_"):
-                    di = ch.draw(n_docs, "doc")
-                    rd = xf.draw_rendering(ch)
+                    di, rd, xml, prefix, fail_at, via = e["di"], e["rd"], e["xml"], e["prefix"], e["fail_at"], e["via"]
                     rd_desc = (f"doc {di} ns={rd['ns']}" + (f":{rd['prefix']}" if rd["prefix"] else "") +
                                f" comments={rd['comments']} ws={rd['ws']}")
-                    if op == "load_ok":
-                        xml, prefix, fail_at = xf.render(docs[di], rd), xf.ns_prefix_arg(rd), None
-                        vias = ["fileobj", "str", "path"] + (["load_xml"] if (rd["ns"] == "prefix" and rd["prefix"] == "xtce") else [])
-                    else:
-                        xml, prefix, fail_at = mutate_bad(op[4:], docs[di], rd, ch, w)
-                        vias = ["fileobj", "str", "path"] if fail_at is None else ["fileobj"]
-                    via = ch.pick(vias, "via")
                     if via == "fileobj":
-                        src = io.BufferedReader(SimRaw(w, xml, fail_at=fail_at), buffer_size=ch.pick((8192, 512, 64), "bufsize"))
+                        src = io.BufferedReader(SimRaw(w, xml, fail_at=fail_at), buffer_size=e["bufsize"])
                     else:
-                        fileno[0] += 1
-                        pth = os.path.join(tmpdir, f"doc{fileno[0]}.xml")
+                        pth = os.path.join(tmpdir, e["fname"])
+                        if pth in used_paths and used_paths[pth] != zlib.crc32(xml):
+                            w.probe("path_reused_for_other_content")
+                        used_paths[pth] = zlib.crc32(xml)
                         with open(pth, "wb") as f:
                             f.write(xml)
                         src = pth if via in ("str", "load_xml") else pathlib.Path(pth)
@@ -251,9 +333,10 @@ def run(ch, render=False):
                             defn = space_packet_parser.load_xml(src)
                         else:
                             defn = XtcePacketDefinition.from_xtce(src, xtce_ns_prefix=prefix)
-                    except Exception as e:
-                        err = e
-                    trace.append(f"{opi}: {op} {rd_desc} via={via} -> " + ("ok" if err is None else f"{type(err).__name__}: {str(err)[:80]}"))
+                    except Exception as ex:
+                        err = ex
+                    trace.append(f"{opi}: {op} {rd_desc} via={via}" + (f" ({e['fname']})" if e["fname"] else "") + " -> " +
+                                 ("ok" if err is None else f"{type(err).__name__}: {str(err)[:80]}"))
                     if op == "load_ok":
                         w.probe("via_" + via)
                         if rd["prefix"] and not rd["prefix"].isascii():
@@ -272,9 +355,9 @@ def run(ch, render=False):
                                                     f"{type(err).__name__}: {err}; the canonical rendering loads as first load",
                                      f"load_failed|{type(err).__name__}")
                             break
-                        if not judge(di, defn, f"operation {opi} ({op} via {via})", rd_desc):
+                        if not judge(di, defn, f"operation {opi} ({op} via {via})", rd_desc, e["key"]):
                             break
-                        loaded.append((di, defn, rd["ns"]))
+                        loaded.append((di, defn, rd["ns"], e["key"]))
                         prev_bad = None
                     else:
                         w.fault("load_" + op[4:])
@@ -283,21 +366,21 @@ def run(ch, render=False):
                         prev_bad = op[4:]
                         bad_before_judged = True
                 elif op == "use_earlier":
-                    di, defn, nsc = loaded[ch.draw(len(loaded), "which")]
+                    di, defn, nsc, key = loaded[e["which"]]
                     w.ev("proc", op, di)
                     if conventions and conventions[-1] != nsc:
                         w.probe("use_earlier_after_other_ns")
                     trace.append(f"{opi}: use definition of doc {di} loaded earlier ({nsc})")
-                    if not judge(di, defn, f"operation {opi} (use of a definition loaded earlier)", f"doc {di}, loaded as {nsc}"):
+                    if not judge(di, defn, f"operation {opi} (use of a definition loaded earlier)", f"doc {di}, loaded as {nsc}", key):
                         break
                 elif op == "serialize_earlier":
-                    di, defn, nsc = loaded[ch.draw(len(loaded), "which")]
+                    di, defn, nsc, key = loaded[e["which"]]
                     w.ev("proc", op, di)
                     trace.append(f"{opi}: serialise definition of doc {di}")
                     try:
                         defn.to_xml_tree()
-                    except Exception as e:
-                        trace[-1] += f" -> {type(e).__name__}"
+                    except Exception as ex:
+                        trace[-1] += f" -> {type(ex).__name__}"
                 else:
                     w.ev("proc", op)
                     trace.append(f"{opi}: construct empty XtcePacketDefinition()")
